@@ -45,10 +45,13 @@ M_traces(p) ==
 M_summary(p) ==
   /\ Summary(FALSE)' = [all |-> p.summary.all, pools |-> p.summary.pools, accounts |-> p.summary.accounts, delegated |-> p.summary.delegated]
   /\ Summary(TRUE)' = [all |-> p.gsummary.all, pools |-> p.gsummary.pools, accounts |-> p.gsummary.accounts, delegated |-> p.gsummary.delegated]
+\* the typed withdrawal events of the message, in order: pool name, amount, denomination
+EventsMatch(me, re) == /\ Len(me) = Len(re)
+                       /\ \A k \in DOMAIN me : me[k].pool = re[k].pool /\ me[k].amount = re[k].amount /\ re[k].denom = vdenom
 Matches(p) == M_modBal(p) /\ M_bal(p) /\ M_locked(p) /\ M_acct(p) /\ M_pools(p) /\ M_traces(p) /\ M_summary(p)
 \* diagnosis of a rejected line (second run with DiagLine set to it): which components of the logged event the specification does not reproduce
 CONSTANT DiagLine
-Diag(p, okSame) == PrintT(ToJson([diag |-> [ok |-> okSame, modBal |-> M_modBal(p), bal |-> M_bal(p), locked |-> M_locked(p), acct |-> M_acct(p),
+Diag(p, okSame) == PrintT(ToJson([diag |-> [ok |-> okSame, events |-> (IF TraceLog[l].ev = "msg" /\ TraceLog[l].ok /\ act'.ok /\ TraceLog[l].m \in {"withdraw", "send"} THEN EventsMatch(act'.out.events, TraceLog[l].events) ELSE TRUE), modBal |-> M_modBal(p), bal |-> M_bal(p), locked |-> M_locked(p), acct |-> M_acct(p),
                                              pools |-> M_pools(p), traces |-> M_traces(p), summary |-> M_summary(p)]]))
 
 TrReset ==
@@ -80,6 +83,7 @@ TrMsg ==
           ELSE /\ act'.ok = e.ok
                /\ Matches(e.post)
                /\ (e.m = "withdraw" /\ e.ok) => act'.out.paid = e.paid
+               /\ (e.m \in {"withdraw", "send"} /\ e.ok) => EventsMatch(act'.out.events, e.events)
   /\ l' = l + 1
 
 TraceNext == TrReset \/ TrConfigure \/ TrAdvance \/ TrDelegate \/ TrMsg
